@@ -4,7 +4,8 @@
    splice of the unmasked variants, reported coordinates are the REF pre-images of ALT positions, masks and the
    background_variants selection are exact.  The liftover laws themselves are C05. *)
 From VV Require Import Model.Base Model.Pattern Model.Gpo Model.Background Spec.LiftSpec
-  Proofs.ApplyProofs Proofs.GpoTop Proofs.BackgroundProofs.
+  Proofs.ApplyProofs Proofs.GpoTop Proofs.BackgroundProofs
+  Model.Context Proofs.GpoCtxProofs Generated.OrderKey.
 
 Theorem C06_background_seq_is_splice : forall start ref vs,
   wfv start (start + zlen ref - 1) vs ->
@@ -31,3 +32,63 @@ Print Assumptions C06_reported_position_is_ref.
 Print Assumptions C06_mask_exact.
 Print Assumptions C06_bed_range_one_based.
 Print Assumptions C06_background_variants_exact.
+
+(* ---- the context handed to the liftover (get_gpo_ctx) ---- *)
+
+(* closure: the variants the position offsets are built from are exactly those the returned context reaches (start or end
+   inside it); the returned context contains the one asked for; every counted variant lies inside it *)
+Theorem C06_context_closed : forall all ctx sel c,
+  gpo_ctx_sel all ctx = Ok (Some sel, c) ->
+  sel = select_stats c all /\ sel <> [] /\ rs c <= rs ctx /\ re ctx <= re c /\
+  (forall x, In x sel -> vs_in_range x c = true).
+Proof. exact gpo_ctx_sel_closed. Qed.
+
+(* the variants applied to the context sequence (get_ctx_seq_bg: start inside the context) are the variants counted *)
+Theorem C06_context_applied_eq_counted : forall all ctx sel c,
+  gpo_ctx_sel all ctx = Ok (Some sel, c) -> applied c all = sel.
+Proof. exact gpo_ctx_applied_eq_counted. Qed.
+
+(* hence the ALT length the offsets carry is the context length plus the net length change of the applied variants *)
+Theorem C06_context_alt_length : forall all ctx g c,
+  gpo_ctx all ctx = Ok (Some g, c) -> 0 < rs c ->
+  g_range g = c /\ g_alt_length g = rlen c + sum_delta (applied c all) /\ rs c <= rs ctx /\ re ctx <= re c.
+Proof. exact gpo_ctx_alt_length. Qed.
+
+(* no counted variant is out of the bounds of the returned context (clamp_var_stats_collection does not raise) *)
+Theorem C06_context_variants_in_bounds : forall all ctx sel c,
+  gpo_ctx_sel all ctx = Ok (Some sel, c) -> 0 < rs c -> clamp sel c = Ok (sort_by_pos sel).
+Proof. exact gpo_ctx_sel_in_bounds. Qed.
+
+(* no background variant in reach: no offsets, context unchanged *)
+Theorem C06_context_none : forall all ctx c,
+  gpo_ctx_sel all ctx = Ok (None, c) -> c = ctx /\ select_stats ctx all = [].
+Proof. exact gpo_ctx_sel_none. Qed.
+
+(* the loop ends within as many rounds as there are variants (the model's fuel is never exhausted) *)
+Theorem C06_context_loop_terminates : forall all ctx, gpo_ctx_sel all ctx <> Err OtherErr.
+Proof. exact gpo_ctx_sel_terminates. Qed.
+
+(* the single widening of the tree before fix 9011408 is refuted by the input the check found: the widened context
+   reaches a deletion that is applied but not counted *)
+Theorem C06_single_widening_refuted :
+  exists all ctx sel c, gpo_ctx_sel_once all ctx = Ok (Some sel, c) /\ applied c all <> sel.
+Proof. exact gpo_ctx_once_applied_refuted. Qed.
+
+(* the widening is still written as a loop that selects again in the source (a single pass is what C06_single_widening_refuted refutes) *)
+Theorem C06_context_widening_loops_in_source : gpo_ctx_reselects_in_loop = true.
+Proof. vm_compute. reflexivity. Qed.
+
+Example C06_context_example :
+  gpo_ctx_sel [mkVS 67 1 0; mkVS 68 1 1; mkVS 75 0 2] (mkRange 68 103)
+  = Ok (Some [mkVS 67 1 0; mkVS 68 1 1; mkVS 75 0 2], mkRange 66 103).
+Proof. exact gpo_ctx_sel_example. Qed.
+
+Print Assumptions C06_context_closed.
+Print Assumptions C06_context_applied_eq_counted.
+Print Assumptions C06_context_alt_length.
+Print Assumptions C06_context_variants_in_bounds.
+Print Assumptions C06_context_none.
+Print Assumptions C06_context_loop_terminates.
+Print Assumptions C06_single_widening_refuted.
+Print Assumptions C06_context_widening_loops_in_source.
+Print Assumptions C06_context_example.
